@@ -434,8 +434,8 @@ def main(argv=None):
         print(f"KNOWN-FINDING: property={prop} {e['id']}: {e['what']} (cases excluded this run: {known_hits.get(e['id'], 0)})")
 
     if harness_errors:
-        for h in harness_errors[:3]:
-            print(h, file=sys.stderr)
+        for h in harness_errors[:2]:
+            print(h[:300] + "\n  ...\n" + h[-1800:] if len(h) > 2200 else h, file=sys.stderr)
         print(f"HARNESS-ERROR property={prop} ({len(harness_errors)} error(s))")
         if not failures:
             return 2
